@@ -61,6 +61,19 @@ impl fmt::Display for Scope {
     }
 }
 
+/// The parser only checks that a public key is written in hexadecimal: refuse keys that are
+/// not valid for their algorithm before the infallible conversion below is applied
+pub(crate) fn validate_parsed_scopes(
+    scopes: &[biscuit_parser::builder::Scope],
+) -> Result<(), error::Token> {
+    for scope in scopes {
+        if let biscuit_parser::builder::Scope::PublicKey(pk) = scope {
+            PublicKey::from_bytes(&pk.key, pk.algorithm.clone().into())?;
+        }
+    }
+    Ok(())
+}
+
 impl From<biscuit_parser::builder::Scope> for Scope {
     fn from(scope: biscuit_parser::builder::Scope) -> Self {
         match scope {
